@@ -17,6 +17,9 @@
  *   member_*  : s.computeIsotropicFunction<es>, ...Derivative<es>,
  *               ...AndDerivative<es> and the free functions, es in {TFEL
  *               default, FSES Jacobi, GTE QR}
+ *   decomposition_* : computeStensorPositivePartAndDerivative and
+ *               computeStensorDecompositionInPositiveAndNegativeParts (pp, np,
+ *               pp+np=s, dpp, dnp)
  *   named_*   : logarithm, absolute_value, positive_part, negative_part,
  *               square_root (default solver), positive_part + negative_part = s
  *
@@ -27,6 +30,7 @@
 #include "gens.hxx"
 #include "TFEL/Math/stensor.hxx"
 #include "TFEL/Math/st2tost2.hxx"
+#include "TFEL/Math/Stensor/DecompositionInPositiveAndNegativeParts.hxx"
 #include "TFEL/Math/tmatrix.hxx"
 #include "TFEL/Math/tvector.hxx"
 
@@ -325,6 +329,10 @@ namespace {
       // for the denominator only (error <= eps |f'| / gap3)
       R reg = eps * b.d2f;
       if (N == 3 && !(eq[0] && eq[1] && eq[2]) && g.gmin_gen > 0) {
+        // one coefficient replaces theta_02 and theta_12: they differ by up to
+        // eps sup|d theta/d l| <= 2 eps max|f'| / gap3 (reached by |x| and
+        // max(x,0) when the third eigenvalue has the other sign), whatever the
+        // regularisation: this allowance does not depend on a known finding
         reg += eps * b.df / g.gmin_gen;
         if (g.gmin_gen < 100 * eps) g.clustered = true;
       }
@@ -423,7 +431,10 @@ namespace {
       if (gr > 4 * U && gr < 1e-3L && (gB == 0 || gr < gB)) gB = gr;
     }
     R t = K_AN * std::sqrt(U);
-    if (degenerate) t = R(0.5);  // as in C03
+    // degenerate class: the cross product eigenvectors are wrong by ~ u/sep,
+    // sep >= 1000 u (merge threshold of StensorComputeEigenVectors<3>), i.e.
+    // <= 1e-3 (C03: 3.3e-3 |s| observed on the reconstruction): 0.05
+    if (degenerate) t = R(0.05);
     else if (gB > 0) t = std::max(t, K_NEAR * U / std::max(gB, 1000 * U));
     return std::min(t, R(0.5));
   }
@@ -569,6 +580,102 @@ namespace {
     }
   }
 
+  // ------------------------------------------------------------ decomposition
+  /*!
+   * computeStensorPositivePartAndDerivative and
+   * computeStensorDecompositionInPositiveAndNegativeParts (N = 1,2,3): pp and
+   * np against the reference positive / negative parts, pp + np = s, dpp and
+   * dnp against the reference derivative of max(x,0) resp. min(x,0).
+   * Eigenvalues away from 0 (>= 0.05 |l|, the regularisation of the kink at 0
+   * is not part of the property), every sign pattern, eps = 1e-6 |s| (callers:
+   * 1e-10 on strains of 1e-3), default eigen solver (the only one available
+   * through these functions).
+   */
+  template <unsigned short N>
+  void decomposition(verif::Case& c) {
+    using S = stensor<N, double>;
+    Input in = genInput(c, N, true, 8);
+    if (N == 1) in.Q = M3::Id();
+    const Fct& F = FCTS[8];
+    M3 D0;
+    for (int i = 0; i < 3; ++i) D0(i, i) = in.l[i];
+    const S s = gen::toStensor<S>(ref::sym(in.Q * D0 * ref::transpose(in.Q)));
+    const M3 A = gen::stensorToM3(s);
+    R l[3];
+    M3 V;
+    ref::jacobi(A, l, V);
+    R rs[3] = {l[0], l[1], l[2]};
+    ref::sort3(rs);
+    const R nS = ref::norm(A);
+    const R minAbs = std::min({std::fabs(l[0]), std::fabs(l[1]), std::fabs(l[2])});
+    if (minAbs < 0.01L * nS) c.discard();
+    c.nontrivial(N >= 2 && gen::misalignment(in.Q) > 1e-3);
+    const int npos = (l[0] > 0) + (l[1] > 0) + (l[2] > 0);
+    c.tag("signs.positive" + std::to_string(npos));
+    if (in.gapClass != "distinct") c.tag("nontrivial.not_well_separated");
+    const double eps = rd(1e-6L * nS);
+    const R st = solverTol<ES::TFELEIGENSOLVER, N>(rs, nS);
+    // a pair closer than eps is merged (mean eigenvalue on both directions):
+    // the values move by at most the gap
+    R tolV = st * 2 * nS + 1e-300L;
+    if (rs[1] - rs[0] < 2 * R(eps) || rs[2] - rs[1] < 2 * R(eps)) tolV += 8 * R(eps);
+    // reference values
+    M3 Dp, Dn;
+    for (int i = 0; i < 3; ++i) {
+      Dp(i, i) = std::max(l[i], R(0));
+      Dn(i, i) = std::min(l[i], R(0));
+    }
+    const M3 PP = V * Dp * ref::transpose(V), NP = V * Dn * ref::transpose(V);
+    // reference derivatives (exact limit at the eigenvalues equal up to rounding)
+    R lr[3] = {l[0], l[1], l[2]};
+    for (int i = 0; i < 3; ++i)
+      for (int j = 0; j < i; ++j)
+        if (std::fabs(lr[i] - lr[j]) <= 64 * U * nS) lr[i] = lr[j];
+    const M66 DP = refDerivative(F, lr, V);
+    M66 DN{};
+    for (int i = 0; i < 6; ++i)
+      for (int j = 0; j < 6; ++j) DN[i][j] = (i == j ? 1 : 0) - DP[i][j];
+    const Bounds b = bounds(F, rs[0], rs[2]);
+    const GapInfo g = gapInfo(lr, R(eps), b, N);
+    // derivatives are asserted where the branch taken is not decided by
+    // rounding: well separated or exactly repeated eigenvalues
+    const bool sep = in.gapClass == "distinct";
+    const bool rep = in.gapClass == "two_equal" || in.gapClass == "three_equal";
+    const bool checkD = sep || rep;
+    const R tolD = st * (1 + (g.gmin_gen > 0 ? 2 * nS / g.gmin_gen : 0)) + g.reg + 1e-300L;
+    const std::string cls = rep ? ".repeated" : (sep ? ".separated" : ".near");
+    const std::string what = " gap=" + in.gapClass + " positive eigenvalues=" + std::to_string(npos);
+    {
+      st2tost2<N, double> dpp;
+      S pp;
+      computeStensorPositivePartAndDerivative(dpp, pp, s, eps);
+      c.close(ref::norm(gen::stensorToM3(pp) - PP), 0, tolV, "C05.decomposition.pp" + cls,
+              "computeStensorPositivePartAndDerivative: pp" + what);
+      if (checkD)
+        c.close(dist<N>(toM66<N>(dpp), DP), 0, tolD, "C05.decomposition.dpp" + cls,
+                "computeStensorPositivePartAndDerivative: dpp" + what);
+    }
+    {
+      st2tost2<N, double> dpp, dnp;
+      S pp, np;
+      computeStensorDecompositionInPositiveAndNegativeParts(dpp, dnp, pp, np, s, eps);
+      c.close(ref::norm(gen::stensorToM3(pp) - PP), 0, tolV, "C05.decomposition.pp" + cls,
+              "computeStensorDecompositionInPositiveAndNegativeParts: pp" + what);
+      c.close(ref::norm(gen::stensorToM3(np) - NP), 0, tolV, "C05.decomposition.np" + cls,
+              "computeStensorDecompositionInPositiveAndNegativeParts: np" + what);
+      c.close(ref::norm(gen::stensorToM3(S(pp + np)) - A), 0, tolV, "C05.decomposition.pp_plus_np" + cls,
+              "computeStensorDecompositionInPositiveAndNegativeParts: pp+np != s" + what);
+      if (checkD) {
+        c.close(dist<N>(toM66<N>(dpp), DP), 0, tolD, "C05.decomposition.dpp" + cls,
+                "computeStensorDecompositionInPositiveAndNegativeParts: dpp" + what);
+        // input class of the dnp claim: 3D tensor with a negative eigenvalue
+        c.close(dist<N>(toM66<N>(dnp), DN), 0, tolD,
+                "C05.decomposition.dnp" + cls + (N == 3 && npos < 3 ? ".3d_negative" : ""),
+                "computeStensorDecompositionInPositiveAndNegativeParts: dnp" + what);
+      }
+    }
+  }
+
 }  // namespace
 
 VERIF_SUB_W(static_1d, 0.3) { static_api<1u>(c); }
@@ -583,5 +690,8 @@ VERIF_SUB_W(member_tfel_1d, 0.2) { member_api<ES::TFELEIGENSOLVER, 1u>(c); }
 VERIF_SUB_W(named_1d, 0.2) { named<1u>(c); }
 VERIF_SUB_W(named_2d, 0.5) { named<2u>(c); }
 VERIF_SUB(named_3d) { named<3u>(c); }
+VERIF_SUB_W(decomposition_1d, 0.2) { decomposition<1u>(c); }
+VERIF_SUB_W(decomposition_2d, 0.5) { decomposition<2u>(c); }
+VERIF_SUB(decomposition_3d) { decomposition<3u>(c); }
 
 VERIF_MAIN("C05_isotropic")
